@@ -535,3 +535,215 @@ class ReadTable(Contract):
 
 
 CONTRACTS += [Run(), ReadTable()]
+
+
+# ---------------------------------------------------------------------------------------------
+class GenerateHistograms(Contract):
+    """C10 (histogram sheet): for an arbitrary row of an arbitrary samples table (loop cut: any number of rows, arbitrary prior
+    state) and each reported channel of that row, the two lines written for (row, channel) are
+      'Bin Centers (<unit>)' = every second value, from the second, of  samples[row].hist_bins(channel, 2*nbins, scale)
+      'Counts'               = np.histogram(samples[row][:, channel], bins = every second value, from the first, of the SAME call)
+    with nbins = min(samples[row].resolution(channel), max_bins) and scale = 'linear' iff the unit text is 'Channel', else
+    'logicle'; rows whose sample is an error, and channels whose unit cell is empty, write nothing.  Bin edges therefore come from
+    the row's own sample.  pandas is abstracted to a write log (A-LIB); hist_bins / np.histogram are uninterpreted."""
+    target = 'FlowCal.excel_ui.generate_histograms_table'
+    property_ids = ('C10',)
+    frame = False
+    assumptions = ('generate_histograms_table: table layout as in ProcessSamples (Units columns for FL1 and FL2); rows, unit cells, '
+                   'error flags, resolutions symbolic; number of rows arbitrary (loop cut)',
+                   'A-LIB: pandas DataFrame/.loc abstracted to a log of (row key, columns, values) writes; hist_bins, np.histogram uninterpreted')
+    max_paths = 2000
+
+    def cases(self):
+        return [{'label': 'rows'}]
+
+    def setup(self, I, case):
+        c = I.ctx
+        aux = {'calls': [], 'writes': []}
+        n = c.fresh_int('n_rows')
+        c.assume(n >= 0)
+        aux['n_rows'] = n
+        rid = z3.Function('row_id', Z, ST)
+        unit = lambda col: z3.Function('unit_' + re.sub(r'\W', '_', col), ST, ST)
+        isnull = lambda col: z3.Function('unit_isnull_' + re.sub(r'\W', '_', col), ST, B)
+        is_err = z3.Function('sample_is_error', ST, B)
+        res = z3.Function('resolution_of', ST, ST, Z)
+        aux.update({'rid': rid, 'unit': unit, 'isnull': isnull, 'is_err': is_err, 'res': res})
+        maxb = c.fresh_int('max_bins')
+        c.assume(maxb >= 1)
+        aux['max_bins'] = maxb
+
+        def oattr(I_, obj, name):
+            if obj.tag == 'table':
+                if name == 'columns':
+                    return stamp(Seq('list', list(COLUMNS)))
+                if name == 'index':
+                    return stamp(SymSeq('list', I_.mk(n, 'int'), lambda I3, i: SV(rid(i), 'str')))
+            if obj.tag == 'sample':
+                sid = obj.payload
+                if name == 'resolution':
+                    def _res(I2, a, k):
+                        ch = I2.z(a[0])
+                        r = res(sid, ch)
+                        I2.ctx.assume(r >= 1)
+                        return SV(r, 'int')
+                    return Builtin('resolution', _res)
+                if name == 'hist_bins':
+                    def _hb(I2, a, k):
+                        ch, nb, sc = a[0], a[1], a[2]
+                        nbz = I2.z(nb, 'int')
+                        E = I2.ctx.fresh_fn('edges', Z, R)
+                        arr = I2.np.new([I2.np.norm_dim(nbz + 1)], 'float', lambda t, E=E: E(t))
+                        aux['calls'].append({'sample': sid, 'channel': ch, 'nbins': nbz, 'scale': sc, 'result': arr, 'E': E})
+                        return arr
+                    return Builtin('hist_bins', _hb)
+            if obj.tag == 'regex' and name == 'match':
+                def match(I2, a, k):
+                    s_ = I2.force(a[0])
+                    m = obj.payload.match(s_)
+                    return None if m is None else Opaque('match', m)
+                return Builtin('match', match)
+            if obj.tag == 'match' and name == 'group':
+                return Builtin('group', lambda I2, a, k: obj.payload.group(*a))
+            if obj.tag == 'hist_table' and name == 'loc':
+                return Opaque('hist_loc', obj)
+            return PB.NOATTR
+
+        def ogetitem(I_, obj, key):
+            key = I_.force(key)
+            if obj.tag == 'table' and isinstance(key, str):
+                return Opaque('column', key)
+            if obj.tag == 'column':
+                col = obj.payload
+                kz = I_.z(key)
+                return OptVal(isnull(col)(kz), SV(unit(col)(kz), 'str'))
+            if obj.tag == 'samples':
+                kz = I_.z(key)
+                if I_.ctx.branch(is_err(kz)):
+                    cls = I_.module_env('FlowCal.excel_ui')['ExcelUIException']
+                    return ExcObj(cls, ['recorded row error'])
+                return Opaque('sample', kz)
+            if obj.tag == 'sample':
+                return Opaque('events', (obj.payload, repr_arg(I_, key)))
+            if obj.tag == 'havoc':
+                return Opaque('havoc', 'item of state carried over from earlier rows')      # arbitrary
+            raise_py('TypeError', 'not subscriptable')
+
+        def osetitem(I_, obj, key, val):
+            if obj.tag == 'hist_loc':
+                aux['writes'].append((key, val))
+                return None
+            if obj.tag == 'havoc':
+                return None
+            raise_py('TypeError', 'no item assignment')
+        libs = {
+            're.compile': Builtin('re.compile', lambda I_, a, k: Opaque('regex', re.compile(a[0]))),
+            'pandas.notnull': Builtin('pd.notnull', lambda I_, a, k: (not I_.truth(SV(a[0].isnone, 'bool'))) if isinstance(a[0], OptVal) else True),
+            'pandas.MultiIndex.from_arrays': Builtin('from_arrays', lambda I_, a, k: Opaque('multiindex')),
+            'pandas.DataFrame': Builtin('DataFrame', lambda I_, a, k: Opaque('hist_table', {'columns': k.get('columns')})),
+        }
+        def olen(I_, obj):
+            if obj.tag == 'havoc':
+                v = I_.ctx.fresh_int('len_of_carried_over_state')
+                I_.ctx.assume(v >= 0)
+                return SV(v, 'int')
+            raise_py('TypeError', 'object has no len()')
+        self.config = {'module_overrides': libs, 'opaque_attr': oattr, 'opaque_getitem': ogetitem, 'opaque_setitem': osetitem, 'opaque_len': olen}
+        I.config.update(self.config)
+        I.libs.update(libs)
+        kw = {'samples_table': Opaque('table', 'samples'), 'samples': Opaque('samples'), 'max_bins': SV(maxb, 'int')}
+        return [], kw, aux
+
+    def loop_specs(self):
+        contract = self
+        q = 'FlowCal.excel_ui.generate_histograms_table'
+
+        def havoc0(I, env, st0):
+            v = I.ctx.fresh_int('n_columns')
+            I.ctx.assume(v >= 0)
+            env['n_columns'] = SV(v, 'int')
+
+        def inv0(I, env, k, st0):
+            yield ('column-count-non-negative', I.z(env['n_columns'], 'int') >= 0)
+
+        def havoc1(I, env, st0):
+            I.ctx.aux['writes'][:] = []          # whatever earlier rows wrote: not described (each row is verified on its own)
+            I.ctx.aux['calls'][:] = []
+
+        def inv1(I, env, k, st0):
+            if isinstance(k, int) or z3.is_int_value(z3.simplify(k)):
+                return
+            kk = z3.simplify(k)
+            lk = getattr(I.ctx, 'loop_k', None)
+            # called with it_k + 1 after the body ran for the arbitrary row it_k: what the row wrote is checked here
+            if lk is not None and 'it_k' in kk.sexpr() and kk.sexpr() != lk[1].sexpr():
+                for ob in contract.row_obligations(I, env, I.ctx.aux):
+                    yield ob
+        return {(q, 0): LoopSpec(inv0, havoc0, keeps=('n_columns',)), (q, 1): LoopSpec(inv1, havoc1, keeps=('hist_table',))}
+
+    def row_obligations(self, I, env, aux):
+        c = I.ctx
+        sid = aux['rid'](c.loop_k[1])
+        writes, calls = aux['writes'], aux['calls']
+        err = aux['is_err'](sid)
+        reported = []
+        for ch in ('FL1', 'FL2'):
+            col = ch + ' Units'
+            given = z3.Not(aux['isnull'](col)(sid))
+            if c.branch(z3.And(z3.Not(err), given)):
+                reported.append(ch)
+        yield ('two-lines-per-reported-channel-and-nothing-else', z3.BoolVal(len(writes) == 2 * len(reported) and len(calls) == len(reported)))
+        if len(writes) != 2 * len(reported) or len(calls) != len(reported):
+            return
+        for j, ch in enumerate(reported):
+            col = ch + ' Units'
+            u = aux['unit'](col)(sid)
+            call = calls[j]
+            (k1, v1), (k2, v2) = writes[2 * j], writes[2 * j + 1]
+            nb = z3.If(aux['res'](sid, S(ch)) < aux['max_bins'], aux['res'](sid, S(ch)), aux['max_bins'])
+            yield ('%s:bins-come-from-this-rows-sample' % ch, call['sample'] == sid)
+            yield ('%s:bins-are-for-this-channel' % ch, I.z(call['channel']) == S(ch))
+            yield ('%s:twice-the-number-of-bins-requested' % ch, call['nbins'] == 2 * nb)
+            sc = I.z(call['scale'])
+            yield ('%s:linear-scale-iff-units-are-Channel' % ch, sc == z3.If(u == S('Channel'), S('linear'), S('logicle')))
+            E = call['E']
+            t = c.fresh_int('bin_t')
+            okc = isinstance(v1, NDArr) and v1.ndim == 1
+            yield ('%s:centers-line-is-an-array' % ch, z3.BoolVal(okc))
+            if okc:
+                yield ('%s:centers-are-every-second-value-from-the-second' % ch,
+                       z3.And(I.np.dim_z(v1.shape[0]) == nb, z3.Implies(z3.And(0 <= t, t < nb), v1.fn(t) == E(2 * t + 1))))
+            okh = isinstance(v2, NDArr) and hasattr(v2, 'hist1_of')
+            yield ('%s:counts-line-is-a-histogram' % ch, z3.BoolVal(okh))
+            if okh:
+                ev, edges = v2.hist1_of
+                from pyvc.values import SliceV
+                pk = ev.payload[1] if isinstance(ev, Opaque) and ev.tag == 'events' else None
+                all_rows = isinstance(pk, tuple) and len(pk) == 2 and isinstance(pk[0], SliceV) \
+                    and pk[0].start is None and pk[0].stop is None and pk[0].step is None and pk[1] == ch
+                yield ('%s:counts-are-of-all-events-of-this-rows-sample-in-this-channel' % ch,
+                       z3.BoolVal(bool(all_rows and z3.eq(ev.payload[0], sid))))
+                yield ('%s:counts-use-every-second-value-from-the-first-of-the-same-bins' % ch,
+                       z3.And(I.np.dim_z(edges.shape[0]) == nb + 1, z3.Implies(z3.And(0 <= t, t <= nb), edges.fn(t) == E(2 * t))))
+            # row keys and columns
+            for (kx, what) in ((k1, 'Bin Centers'), (k2, 'Counts')):
+                okk = isinstance(kx, Seq) and len(kx.items) == 2 and isinstance(kx.items[0], Seq) and len(kx.items[0].items) == 3
+                yield ('%s:%s-line-key-shape' % (ch, what), z3.BoolVal(okk))
+                if okk:
+                    a0, a1, a2 = kx.items[0].items
+                    yield ('%s:%s-line-is-keyed-by-row-and-channel' % (ch, what), z3.And(I.z(a0) == sid, I.z(a1) == S(ch)))
+                    if what == 'Counts':
+                        yield ('%s:Counts-line-label' % ch, I.z(a2) == S('Counts'))
+                    else:
+                        yield ('%s:Bin-Centers-line-label-names-the-unit' % ch,
+                               I.z(a2) == z3.Concat(S('Bin Centers ('), u, S(')')))
+
+    def expected_outcomes(self, case):
+        return ['return']
+
+    def check(self, I, case, aux, out):
+        P = I.ctx.prove
+        P('returns-the-table', out.kind == 'return' and isinstance(out.value, Opaque) and out.value.tag == 'hist_table')
+
+
+CONTRACTS.append(GenerateHistograms())
